@@ -361,6 +361,10 @@ func (w *World) Duplicate(fl *Flight) *Flight {
 	return cp
 }
 
+// Lock / Unlock give a driver exclusive access to Inflight.
+func (w *World) Lock()   { w.mu.Lock() }
+func (w *World) Unlock() { w.mu.Unlock() }
+
 // NInflight returns the number of frames in flight.
 func (w *World) NInflight() int {
 	w.mu.Lock()
@@ -404,6 +408,60 @@ func (w *World) DeliverRaw(from, to *Node, data []byte) (res []Handled, err erro
 	}
 	f.SetRecvLink(recvLink)
 	return w.Inject(to, f)
+}
+
+// DeliverConcurrent hands several frames to ONE receiver the way a router with several workers sees them: each
+// frame passes the switch handler, then all frames the switch escalated are handled by as many real router workers
+// at the same time (Router.Start runs one frame worker per CPU).
+func (w *World) DeliverConcurrent(fls []*Flight) {
+	if len(fls) == 0 {
+		return
+	}
+	to := fls[0].To
+	for _, fl := range fls {
+		if fl.To != to {
+			panic("DeliverConcurrent: flights for different receivers")
+		}
+		recvLink := to.links[fl.From.ID.IP]
+		if recvLink == nil || recvLink.closing {
+			continue
+		}
+		n := len(fl.Data)
+		ps := to.Builder.GetPooledSlice(peering.FrameOffset + n + peering.FrameOverhead)
+		if ps == nil {
+			continue
+		}
+		copy(ps[peering.FrameOffset:], fl.Data)
+		f, err := to.Builder.ParseFrame(ps[peering.FrameOffset:peering.FrameOffset+n], ps[:cap(ps)], peering.FrameOffset)
+		if err != nil {
+			continue
+		}
+		f.SetRecvLink(recvLink)
+		if panicked, pv := catch(func() { _ = to.Sw.VerifHandleFrame(f) }); panicked {
+			w.notePanic(fmt.Sprintf("switch of %s: %v", to.Name, pv))
+		}
+	}
+	var up []frame.Frame
+	for {
+		select {
+		case f := <-to.swUp:
+			up = append(up, f)
+			continue
+		default:
+		}
+		break
+	}
+	var wg sync.WaitGroup
+	for _, f := range up {
+		wg.Add(1)
+		go func(f frame.Frame) {
+			defer wg.Done()
+			if err, _ := to.runRouterWorker(f); err != nil && errors.Is(err, mgr.ErrWorkerPanic) {
+				w.notePanic(fmt.Sprintf("router worker of %s: %v", to.Name, err))
+			}
+		}(f)
+	}
+	wg.Wait()
 }
 
 // Inject runs the switch handler and then the router worker on a parsed frame.
